@@ -18,13 +18,15 @@ use std::time::Duration;
 #[derive(Clone)] pub struct C1;
 #[derive(Clone)] pub struct C2;
 #[derive(Clone)] pub struct C3;
+#[derive(Clone)] pub struct C4;
 macro_rules! same_debug { ($($t:ty),*) => { $( impl std::fmt::Debug for $t { fn fmt(&self, f: &mut std::fmt::Formatter<'_>) -> std::fmt::Result { f.write_str("CustomEasing") } } )* } }
-same_debug!(C0, C1, C2, C3);
+same_debug!(C0, C1, C2, C3, C4);
 fn cust(k: u32, x: f32) -> f32 {
     match k {
         0 => x * x,
         1 => 1.0 - (1.0 - x) * (1.0 - x),
         2 => x * 0.5 + 0.25,
+        4 => 1.0 / (x - 0.5),            // a pole at x = 0.5: the easing's own output is ±inf there and huge next to it
         _ => CubicBezierEasing::new(0.3, 0.1, 0.6, 0.9).calc(x),
     }
 }
@@ -32,13 +34,14 @@ impl EasingFunction for C0 { fn calc(&self, x: f32) -> f32 { cust(0, x) } }
 impl EasingFunction for C1 { fn calc(&self, x: f32) -> f32 { cust(1, x) } }
 impl EasingFunction for C2 { fn calc(&self, x: f32) -> f32 { cust(2, x) } }
 impl EasingFunction for C3 { fn calc(&self, x: f32) -> f32 { cust(3, x) } }
+impl EasingFunction for C4 { fn calc(&self, x: f32) -> f32 { cust(4, x) } }
 #[derive(Clone, Debug)]
 pub struct Cust(pub u32);
 impl EasingFunction for Cust {
     fn calc(&self, x: f32) -> f32 { cust(self.0, x) }
 }
 pub fn custom_easing(k: u32) -> Easing {
-    match k { 0 => Easing::Custom(Box::new(C0)), 1 => Easing::Custom(Box::new(C1)), 2 => Easing::Custom(Box::new(C2)), _ => Easing::Custom(Box::new(C3)) }
+    match k { 0 => Easing::Custom(Box::new(C0)), 1 => Easing::Custom(Box::new(C1)), 2 => Easing::Custom(Box::new(C2)), 4 => Easing::Custom(Box::new(C4)), _ => Easing::Custom(Box::new(C3)) }
 }
 
 pub const EASING_NAMES: [&str; 29] = [
@@ -89,22 +92,28 @@ fn show_dur(d: f32) -> String {
     if d == f32::INFINITY { "inf".into() } else { d.to_bits().to_string() }
 }
 
-#[derive(Clone, Debug, Default, Eq, PartialEq, State)]
+/// The animator's state type: five states, three of which are the same enum variant with different payloads (so they share
+/// a discriminant while being unequal) — a state is identified by `PartialEq`, not by its variant.
+#[derive(Clone, Copy, Debug, Default, Eq, PartialEq, State)]
+pub enum Sub {
+    #[default]
+    A,
+    B,
+    C,
+}
+#[derive(Clone, Copy, Debug, Default, Eq, PartialEq, State)]
 pub enum St {
     #[default]
     S0,
     S1,
-    S2,
-    S3,
-    S4,
+    G(Sub),
 }
 fn st_of(i: usize) -> St {
-    [St::S0, St::S1, St::S2, St::S3, St::S4][i]
+    match i { 0 => St::S0, 1 => St::S1, 2 => St::G(Sub::A), 3 => St::G(Sub::B), _ => St::G(Sub::C) }
 }
 fn st_idx(s: &St) -> usize {
-    match s { St::S0 => 0, St::S1 => 1, St::S2 => 2, St::S3 => 3, St::S4 => 4 }
+    match s { St::S0 => 0, St::S1 => 1, St::G(Sub::A) => 2, St::G(Sub::B) => 3, St::G(Sub::C) => 4 }
 }
-impl Copy for St {}
 
 enum Slot<S: ShapeOps> {
     Tl(S::Tl),
@@ -329,7 +338,7 @@ fn fnv(mut h: u64, s: &str) -> u64 {
 fn lerp_kind(kind: &str, a: &str, b: &str, x: f32) -> String {
     macro_rules! go { ($t:ty) => {{ let a: $t = a.parse().unwrap(); let b: $t = b.parse().unwrap(); a.lerp(&b, x).to_string() }} }
     match kind {
-        "f32" => fb(a).lerp(&fb(b), x).to_bits().to_string(),
+        "f32" => fbits(fb(a).lerp(&fb(b), x)).to_string(),
         "i8" => go!(i8), "i16" => go!(i16), "i32" => go!(i32), "i64" => go!(i64),
         "u8" => go!(u8), "u16" => go!(u16), "u32" => go!(u32), "u64" => go!(u64), "usize" => go!(usize),
         _ => "bad-kind".into(),
@@ -437,7 +446,7 @@ impl Runner {
             }
             "ease" => {
                 let e = parse_easing(w[1]);
-                w[2..].iter().map(|t| e.calc(fb(t)).to_bits().to_string()).collect::<Vec<_>>().join(" ")
+                w[2..].iter().map(|t| fbits(e.calc(fb(t))).to_string()).collect::<Vec<_>>().join(" ")
             }
             "repcmp" => {
                 // Ord / PartialOrd / PartialEq of Repeat: `n`, `i`, or a count
@@ -455,7 +464,7 @@ impl Runner {
             "easeraw" => {
                 // the custom function itself, not wrapped in `Easing::Custom` ("a custom easing is used as given")
                 let c = Cust(w[1][1..].parse().unwrap());
-                w[2..].iter().map(|t| c.calc(fb(t)).to_bits().to_string()).collect::<Vec<_>>().join(" ")
+                w[2..].iter().map(|t| fbits(c.calc(fb(t))).to_string()).collect::<Vec<_>>().join(" ")
             }
             "easesweep" => {
                 let e = parse_easing(w[1]);
